@@ -87,12 +87,13 @@ type Exec struct {
 	boundSeen  map[string]bool
 	smtMu      sync.Mutex
 	goalValid  map[*Term]bool
+	heapClasses map[string]*heapClass
 }
 
 func NewExec(prog *Prog, ts *TermStore) *Exec {
 	return &Exec{prog: prog, ts: ts, base: map[*Loc]Value{}, globals: map[*types.Var]*Loc{}, initStore: map[*Loc]Value{},
 		escaped: map[*Loc]bool{}, initDone: map[string]bool{}, initBusy: map[string]bool{}, oblCount: map[string]int{}, loopBound: 8,
-		usedContracts: map[string]bool{}, assumptions: map[string]bool{}, revealed: map[string]bool{}, boundSeen: map[string]bool{}, goalValid: map[*Term]bool{}}
+		usedContracts: map[string]bool{}, assumptions: map[string]bool{}, revealed: map[string]bool{}, boundSeen: map[string]bool{}, goalValid: map[*Term]bool{}, heapClasses: map[string]*heapClass{}}
 }
 
 // Clone makes an independent executor sharing the (immutable) base store.
@@ -398,11 +399,16 @@ type LV struct {
 	Loc  *Loc
 	Path []PathElem
 	Map  *mapLV
+	Heap *heapLV
 }
 
 func (ex *Exec) loadLV(st *State, lv LV, p token.Pos) Value {
 	if lv.Map != nil {
 		return ex.mapLoad(st, lv.Map)
+	}
+	if lv.Heap != nil {
+		v := ex.heapLoadField(st, &HeapRefV{Ref: lv.Heap.Ref, Cls: lv.Heap.Cls}, lv.Heap.Field, p)
+		return ex.getPath(v, lv.Path, st, p)
 	}
 	return ex.getPath(ex.load(st, lv.Loc), lv.Path, st, p)
 }
@@ -410,6 +416,15 @@ func (ex *Exec) loadLV(st *State, lv LV, p token.Pos) Value {
 func (ex *Exec) storeLV(st *State, lv LV, v Value) {
 	if lv.Map != nil {
 		ex.mapStore(st, lv.Map, v)
+		return
+	}
+	if lv.Heap != nil {
+		r := &HeapRefV{Ref: lv.Heap.Ref, Cls: lv.Heap.Cls}
+		if len(lv.Path) > 0 {
+			cur := ex.heapLoadField(st, r, lv.Heap.Field, token.NoPos)
+			v = ex.setPath(cur, lv.Path, v)
+		}
+		ex.heapStoreField(st, r, lv.Heap.Field, v, token.NoPos)
 		return
 	}
 	if len(lv.Path) == 0 {
